@@ -24,8 +24,8 @@ import pyrtl
 RULE = ('condition programs = forests of with-predicate / otherwise / |= nodes: (1) bounded-exhaustive: ALL '
         'forests with <= N branch nodes labelled {p0,p1,otherwise} x every subset of 2 targets assigned per '
         'branch, for 4 target pairs (wire+register, wire+memory, register+memory, wire+wire); quick N=2 plus '
-        '300 seeded samples of N=3 over 3 predicates, thorough N=3 (two pairs) plus 3000 samples of N=4; '
-        '(2) seeded random forests (quick 400, thorough 8000): depth <= 4 (thorough 5), 3-5 shared 1-bit Input '
+        '300 seeded samples of N=3 over 3 predicates, thorough N=3 (two pairs) plus 2000 samples of N=4; '
+        '(2) seeded random forests (quick 400, thorough 6000): depth <= 4 (thorough 5), 3-5 shared 1-bit Input '
         'predicates, 2-3 targets among WireVector/Register/MemBlock, assignments at random positions among the '
         'branches, otherwise at any position (first, middle, repeated), defaults= in 40 %, mixed-width / int '
         'right-hand sides sometimes; 60 % are repaired into accepted programs by dropping conflicting '
@@ -1146,7 +1146,7 @@ def gen_cases(ctx):
     # seeded sample of the n=3 (quick) / n=4 (thorough) space, 3 predicates
     rng = ctx.sub_rng('sample')
     nbig = 3 if quick else 4
-    nsamp = 300 if quick else 3000
+    nsamp = 300 if quick else 2000
     labels = [0, 1, 2, 'oth']
     for i in range(nsamp):
         targets = rng.choice(TARGET_PAIRS)
@@ -1162,7 +1162,7 @@ def gen_cases(ctx):
         c['origin'] = 'enum-sample%d' % nbig
         yield c
     # (2) random
-    nrand = 400 if quick else 8000
+    nrand = 400 if quick else 6000
     for i in range(nrand):
         c = random_case(ctx.sub_rng('random', i), ctx.tier)
         yield c
